@@ -20,7 +20,7 @@ package remedies
 
 //@ func getUpdatedHeaders
 //@   prop C12
-//@   requires remedyConfig != nil && (remedyConfig.GroupQuotaAllocation != nil ==> remedyConfig.GroupQuotaAllocation.GroupBy != nil)
+//@   requires remedyConfig != nil
 //@   allocates map
 //@   modifies now
 //@   loop 1 invariant[dom]  forall(k, string, in(k, headers) <==> seen1[k])
